@@ -68,11 +68,29 @@ def project(o):
     return dict(k='group', ch=[project(c) for c in list(o.main.nodes) + list(o.teardown.nodes)])
   if isinstance(o, phase_collections.PhaseSequence):
     return dict(k='seq', ch=[project(c) for c in o.nodes])
+  from openhtf.core import base_plugs
+  ph = 'na'
+  for p in o.plugs:
+    if p.name == 'ph':
+      ph = 'none' if isinstance(p.cls, base_plugs.PlugPlaceholder) else p.cls.__name__.lower()
   return dict(k='phase', base=1 if o.func is base1 else 2,
               name='' if o.name in ('base1', 'base2') else o.name,
               args=sorted(o.extra_kwargs), meas=[m.name for m in o.measurements],
-              ndiag=len(o.diagnosers), plugs=sorted(p.name for p in o.plugs),
-              timeout=o.options.timeout_s or 0)
+              ndiag=len(o.diagnosers), plugs=sorted(p.name for p in o.plugs if p.name != 'ph'),
+              timeout=o.options.timeout_s or 0, ph=ph)
+
+
+def _phases_of(o):
+  from openhtf.core import phase_collections, phase_group
+  if isinstance(o, phase_group.PhaseGroup):
+    return [p for part in (o.setup, o.main, o.teardown) if part is not None for p in _phases_of(part)]
+  if isinstance(o, phase_collections.PhaseSequence):
+    return [p for n in o.nodes for p in _phases_of(n)]
+  return [o]
+
+
+def _mutable_parts(ph):
+  return [(f, getattr(ph, f)) for f in ('options', 'measurements', 'plugs', 'diagnosers', 'extra_kwargs')]
 
 
 def norm(v):
@@ -95,13 +113,22 @@ def replay_history(hist):
     pass
   plugcls = {'pa': PA, 'pb': PB}
 
+  class PH(base_plugs.BasePlug):
+    pass
+
+  class PHA(PH):
+    pass
+
+  class PHB(PH):
+    pass
+
   def diag_fn(phase_record):
     return None
   for step, (op, val) in enumerate(hist):
     name = op[0]
     new = None
     if name == 'wrap':
-      new = phase_descriptor.PhaseDescriptor.wrap_or_copy(base1 if op[1] == 1 else base2)
+      new = phase_descriptor.PhaseDescriptor.wrap_or_copy(base1) if op[1] == 1 else htf.plug(ph=PH.placeholder)(base2)
     elif name == 'with_args':
       new = objs[op[1] - 1].with_args(**{op[2]: 7})
     elif name == 'options':
@@ -117,6 +144,8 @@ def replay_history(hist):
       new = htf.diagnose(diagnoses_lib.PhaseDiagnoser(build.R, name='dg', run_func=diag_fn))(objs[op[1] - 1])
     elif name == 'plug':
       new = htf.plug(**{op[2]: plugcls[op[2]]})(objs[op[1] - 1])
+    elif name == 'with_plugs':
+      new = objs[op[1] - 1].with_plugs(ph={'pha': PHA, 'phb': PHB}[op[2]])
     elif name == 'seq':
       new = phase_collections.PhaseSequence((objs[op[1] - 1], objs[op[2] - 1]))
     elif name == 'group':
@@ -138,6 +167,14 @@ def replay_history(hist):
     if new is not None:
       if any(new is o for o in objs):
         bad.append('%s returned its operand instead of a copy' % name)
+      # a copy owns its options object and its containers: sharing one of them with an existing
+      # object means that modifying the copy in place changes the object it was derived from
+      mine = {id(x): f for ph_ in _phases_of(new) for f, x in _mutable_parts(ph_)}
+      for o in objs:
+        for ph_ in _phases_of(o):
+          for f, x in _mutable_parts(ph_):
+            if id(x) in mine:
+              bad.append('%s: the new object shares its %s with an existing object (not a copy)' % (name, f))
       objs.append(new)
       values.append(norm(val))
       prints.append(fingerprint(new))
